@@ -122,6 +122,8 @@ def _genuine(rule, path="rule"):
         return None
     if isinstance(rule, ReverseRule):
         cx.see("spec.rule_form", "reverse" + ("(unary)" if len(rule.children) == 1 else ""))
+        if len(rule.children) > 1:
+            cx.count("spec.reverse_rules_with_siblings")
         orig = rule.original_rule
         err = _genuine(orig, path + ".original")
         if err:
